@@ -46,6 +46,8 @@ func (Engine) Generate(prop, tier string, run int, seed uint64) *kernel.Scenario
 	switch prop {
 	case "C06":
 		return genC06(r, tier)
+	case "C03", "C04":
+		return genSettleScenario(r, prop)
 	}
 	return nil
 }
@@ -54,6 +56,8 @@ func (Engine) Execute(t *testing.T, sc *kernel.Scenario, trace bool) *kernel.Res
 	switch sc.Property {
 	case "C06":
 		return execC06(t, sc, trace)
+	case "C03", "C04":
+		return execSettle(t, sc, trace)
 	}
 	return &kernel.Result{}
 }
